@@ -157,7 +157,7 @@ PROPS = {
             'compound header writers: the call-site fact count <= byte length (every element occupies at least one byte in this implementation) is assumed; the serde SerializeSeq/Map impls that call them are not under contract'] + ['to_value/from_value vs bytes: decided only on the samples of the bounded probes tree_vs_bytes_* (value/ser.rs and value/de.rs are serde visitor code outside the Verus subset)',
             'PROVED for every input (unit READERS): SliceReader and IoReader satisfy ONE Read contract (peek/peek_bytes consume nothing, next/read_exact/read_bytes consume exactly what they return, in order), so decoding from a slice and from a stream see the same bytes and leave the same bytes behind; the LazyValue/byte_buf scanner takes exactly one encoded value (length by the AMQP constructor rule) -- the decoders built on top (de.rs) are not under contract']),
     'C04': dict(
-        units=['READERS', 'SEQACCESS'], kani=K_TOTAL3 + K_HDR_QUICK + K_HDR_THOROUGH, level='proof', title='Decoding untrusted bytes (reader layer proved; decoders bounded)',
+        units=['READERS', 'SEQACCESS', 'BYTEREADER'], kani=K_TOTAL3 + K_HDR_QUICK + K_HDR_THOROUGH, level='proof', title='Decoding untrusted bytes (reader layer proved; decoders bounded)',
         probes=[
             dict(name='nest_list32', target='serde_amqp::from_slice::<Value>', args=['nest', '100000'],
                  claim='decoding 100000 nested list32 headers (a 900 KB input) as Value returns (Ok or Err) instead of exhausting an 8 MiB stack',
@@ -273,7 +273,7 @@ PROPS = {
             'NOT DECIDED: what a dropped future does inside library futures; the Detach arm of recv_inner and Sender::send\'s wait for the outcome; starvation dynamics under repeated cancellation beyond the per-call credit leak; duplicates (none possible in the functions under contract: a frame leaves the channel once)',
             ASYNC]),
     'C15': dict(
-        units=['SESSION', 'CONN', 'FRAMEDEC', 'LINK', 'CONNENG', 'TRANSPORT', 'SEQACCESS', 'ACCSESS', 'LINKATTACH', 'FRAMEENC', 'SASLMECH', 'SESSENG', 'READERS', 'TIMERS', 'TXN'], kani=[], level='proof', title='Misbehaving peer',
+        units=['SESSION', 'CONN', 'FRAMEDEC', 'LINK', 'CONNENG', 'TRANSPORT', 'SEQACCESS', 'ACCSESS', 'LINKATTACH', 'FRAMEENC', 'SASLMECH', 'SESSENG', 'READERS', 'TIMERS', 'TXN', 'BYTEREADER'], kani=[], level='proof', title='Misbehaving peer',
         assumptions=[ASYNC, ENGINE,
             'never-blocks-forever and isolation between connections are not decided',
             'handlers of peer input carry no precondition on the peer-controlled arguments']),
